@@ -358,6 +358,9 @@ func visitInstr(fr *frame, instr ssa.Instruction) continuation {
 		fr.env[instr] = makeMap(instr.Type().Underlying().(*types.Map).Key(), reserve)
 
 	case *ssa.Range:
+		if mm, ok := fr.get(instr.X).(map[value]value); ok && symMapExtraLen(mm) > 0 {
+			cur.fault("range over a map holding symbolic keys is not supported (%s)", cur.posStr(instr.Pos()))
+		}
 		if ss, ok := fr.get(instr.X).(symStr); ok {
 			fr.env[instr] = &symStrIter{s: ss, fr: fr}
 		} else {
@@ -451,10 +454,33 @@ func visitInstr(fr *frame, instr ssa.Instruction) continuation {
 		}
 
 	case *ssa.Lookup:
+		if mm, ok := fr.get(instr.X).(map[value]value); ok {
+			if ss, ok := fr.get(instr.Index).(symStr); ok {
+				if ks, still := mkStr(ss).(symStr); still {
+					v, found := symMapLookup(mm, ks)
+					if !found {
+						v = zero(instr.X.Type().Underlying().(*types.Map).Elem())
+					}
+					if instr.CommaOk {
+						v = tuple{v, found}
+					}
+					fr.env[instr] = v
+					return kNext
+				}
+			}
+		}
 		fr.env[instr] = lookup(instr, fr.get(instr.X), concKey(fr.get(instr.Index)))
 
 	case *ssa.MapUpdate:
 		m := fr.get(instr.Map)
+		if mm, ok := m.(map[value]value); ok && mm != nil {
+			if ss, ok := fr.get(instr.Key).(symStr); ok {
+				if ks, still := mkStr(ss).(symStr); still {
+					symMapUpdate(mm, ks, fr.get(instr.Value))
+					return kNext
+				}
+			}
+		}
 		key := concKey(fr.get(instr.Key))
 		v := fr.get(instr.Value)
 		switch m := m.(type) {
@@ -739,6 +765,10 @@ func runFrame(fr *frame) {
 				}
 			}
 			cur.instrs++
+			cur.curInstr = instr
+			if cur.instrs&0xffff == 0 {
+				cur.checkDeadline()
+			}
 			if cur.instrs > cur.lim.MaxInstr {
 				cur.abort("budget", fmt.Sprintf("more than %d instructions on one path", cur.lim.MaxInstr))
 			}
